@@ -71,7 +71,7 @@ impl RunCtx {
     }
 }
 
-pub trait Engine {
+pub trait Engine: Sync {
     fn name(&self) -> &'static str;
     /// Expands a run seed into an explicit, serialisable trace.
     fn generate(&self, run_seed: u64, index: u64, property: &str, thorough: bool) -> Value;
@@ -99,9 +99,26 @@ pub trait Engine {
 }
 
 /// Runs a trace with every seam reset from `run_seed` first.
+/// Every run executes on a thread of its own (2 MiB stack, Rust's default for
+/// spawned threads), so that thread-local state inside the code under test
+/// cannot travel from one run to the next: a run's outcome is then a function
+/// of its trace alone, whatever ran before it in the same worker process.
 pub fn run_trace(engine: &dyn Engine, run_seed: u64, trace: &Value, ctx: &mut RunCtx) {
-    crate::env::begin_run(run_seed);
-    engine.execute(trace, ctx);
+    let joined = std::thread::scope(|s| {
+        std::thread::Builder::new()
+            .name("sim-run".into())
+            .stack_size(2 << 20)
+            .spawn_scoped(s, || {
+                crate::env::begin_run(run_seed);
+                engine.execute(trace, ctx);
+            })
+            .expect("spawn sim-run")
+            .join()
+    });
+    if let Err(payload) = joined {
+        // A panic that escaped the engine is a harness bug, never a verdict.
+        std::panic::resume_unwind(payload);
+    }
 }
 
 /// Delta-debugs `trace` while a violation with `key` persists.
